@@ -26,6 +26,9 @@ type seedSpec struct {
 	Roots    int    `json:"roots"`
 	CfgLimit uint64 `json:"configured_limit"`
 	Fill     int    `json:"entries_in_active_dir"`
+	// Layout: "" one directory in root 0 with Fill entries; "two": root 0 additionally holds a full,
+	// rotated-out directory; "both": with two roots, each root's directory holds Fill entries.
+	Layout string `json:"layout,omitempty"`
 }
 
 func (s seedSpec) limit() int {
@@ -33,6 +36,17 @@ func (s seedSpec) limit() int {
 		return 100
 	}
 	return int(s.CfgLimit)
+}
+
+// seedKeys is the number of keys the seed holds.
+func (s seedSpec) seedKeys() int {
+	switch s.Layout {
+	case "two":
+		return s.limit() + s.Fill
+	case "both":
+		return 2 * s.Fill
+	}
+	return s.Fill
 }
 
 func (s seedSpec) spec() dbh.Spec {
@@ -50,10 +64,21 @@ func buildSeed(s seedSpec) (*dbh.Snapshot, error) {
 	if err != nil {
 		return nil, err
 	}
-	for r := 1; r < s.Roots; r++ {
-		disk.SetFree(in.Roots[r], 0)
+	only := func(root int) {
+		for r := range in.Roots {
+			if r == root {
+				disk.SetFree(in.Roots[r], disk.DefaultFree)
+			} else {
+				disk.SetFree(in.Roots[r], 0)
+			}
+		}
 	}
-	for i := 0; i < s.Fill; i++ {
+	only(0)
+	n := s.seedKeys()
+	for i := 0; i < n; i++ {
+		if s.Layout == "both" && i == s.Fill {
+			only(1)
+		}
 		if err := in.DB.Set(context.Background(), fmt.Sprintf("s%03d", i), dbh.Content(1000+i, 8)); err != nil {
 			return nil, fmt.Errorf("seeding: %w", err)
 		}
@@ -282,9 +307,16 @@ func (f *family) run(seed seedSpec, ops string, probeRoot, probePerm int) (o *en
 			return
 		}
 		w := &world{seed: seed, vals: map[string]int{}}
-		rand.ShuffleHook = func(n int) int { return w.perm % max(1, fact(n)) }
+		// perm j means: the j-th candidate directory (in the deterministic listing order) is tried first,
+		// the others keep their order — every candidate can be brought to the front, however many there are
+		rand.ShuffleHook = func(n int) int {
+			if n <= 1 {
+				return 0
+			}
+			return (w.perm % n) * fact(n-1)
+		}
 		defer func() { rand.ShuffleHook = nil }()
-		for i := 0; i < seed.Fill; i++ {
+		for i := 0; i < seed.seedKeys(); i++ {
 			k := fmt.Sprintf("s%03d", i)
 			w.live = append(w.live, k)
 			w.vals[k] = 1000 + i
@@ -336,8 +368,11 @@ func (f *family) run(seed seedSpec, ops string, probeRoot, probePerm int) (o *en
 
 func fact(n int) int {
 	f := 1
-	for i := 2; i <= n && f < 1000; i++ {
+	for i := 2; i <= n; i++ {
 		f *= i
+		if f > 1<<20 {
+			return 1 << 20
+		}
 	}
 	return f
 }
@@ -370,10 +405,7 @@ func (f *family) runCase(i int64) *enum.Outcome {
 				}
 			}
 		}
-		tries := fact(len(final))
-		if tries > 24 {
-			tries = 24
-		}
+		tries := len(final) + 3 // every candidate (existing directories plus those a rotation creates) in front once
 		if !f.reuse {
 			tries = 1
 		}
@@ -410,6 +442,7 @@ func init() {
 		f := &family{depth: 4, alpha: map[int]string{1: "NMODGR", 2: "NMODGRPQ"}, reuse: true}
 		limits := []uint64{7, 101}
 		roots := []int{1, 2}
+		var only map[string]bool
 		for _, kv := range strings.Split(p, ",") {
 			if i := strings.IndexByte(kv, '='); i > 0 {
 				k, v := kv[:i], kv[i+1:]
@@ -432,16 +465,36 @@ func init() {
 					}
 				case "reuse":
 					f.reuse = v != "0"
+				case "layouts":
+					only = map[string]bool{}
+					for _, x := range strings.Split(v, ".") {
+						if x == "one" {
+							x = ""
+						}
+						only[x] = true
+					}
 				}
 			}
 		}
 		for _, r := range roots {
 			for _, l := range limits {
-				s := seedSpec{Roots: r, CfgLimit: l}
-				for _, d := range []int{2, 1, 0} {
-					s.Fill = s.limit() - d
-					f.seeds = append(f.seeds, s)
-					f.count = append(f.count, pow(len(f.alpha[r]), f.depth))
+				layouts := []string{"", "two"}
+				if r == 2 {
+					layouts = append(layouts, "both")
+				}
+				for _, lay := range layouts {
+					if only != nil && !only[lay] {
+						continue
+					}
+					s := seedSpec{Roots: r, CfgLimit: l, Layout: lay}
+					for _, d := range []int{2, 1, 0} {
+						if lay != "" && d == 2 {
+							continue
+						}
+						s.Fill = s.limit() - d
+						f.seeds = append(f.seeds, s)
+						f.count = append(f.count, pow(len(f.alpha[r]), f.depth))
+					}
 				}
 			}
 		}
